@@ -85,10 +85,14 @@ def check_provenance(ms, labels, clusterer, pool_u, trained_labels, where, train
             raise Violation(f"{where}: proposal mode {r} has standard deviation {sd[j]:.4g} along coordinate {j}, more than the whole extent "
                             f"{hi[j] - lo[j]:.4g} of the particles of cluster {r}: it was not fitted from the particles of that cluster alone",
                             sig={"kind": "mode-of-other-cluster"})
-        # ... and its location is where those particles are: within 4 of their own (weighted) standard deviations of their weighted
-        # mean, in the Mahalanobis sense. Necessary for any location estimate of that weighted cloud (moment, resampled-moment or
-        # Student-t fit); judged only for clusters with enough points and enough effective points for the cloud's covariance to
-        # mean something. A mode carried over from another clustering, or from the pool of another temperature, sits elsewhere.
+        # ... and its location is where those particles are: along every coordinate within 3 of their own (weighted) standard
+        # deviations of their weighted mean. Necessary for any location estimate of that weighted cloud: a (resampled) moment is
+        # within sampling error of the mean, a coordinate-wise median - which is what fit_mvstud returns while finding K5 stands -
+        # within one standard deviation of it (|median - mean| <= sd for every distribution), a Student-t EM location is a mean
+        # reweighted towards the bulk. Judged per coordinate, NOT as a Mahalanobis distance: the coordinate-wise median of a cluster
+        # that merges two separated groups lies off their common axis, many Mahalanobis units from the mean (first version of this
+        # oracle: false alarm at VERIF_SEED=3, DESIGN 5.4). Only for clusters with enough points and enough effective points.
+        # A mode carried over from another clustering, or from the pool of another temperature, sits elsewhere.
         if train is not None:
             ut, wt, lt = train
             sel = lt == r
@@ -97,18 +101,14 @@ def check_provenance(ms, labels, clusterer, pool_u, trained_labels, where, train
                 ww = wt[sel] / wt[sel].sum()
                 if 1.0 / np.sum(ww ** 2) >= 2 * d + 4:
                     m = ww @ ut[sel]
-                    xc = ut[sel] - m
-                    S = (xc * ww[:, None]).T @ xc
-                    S = S + 1e-12 * max(1e-300, float(np.trace(S))) * np.eye(d)
-                    try:
-                        dist2 = float((mu - m) @ np.linalg.solve(S, mu - m))
-                    except np.linalg.LinAlgError:
-                        dist2 = 0.0
-                    if np.isfinite(dist2) and dist2 > 16.0:
-                        raise Violation(f"{where}: proposal mode {r} is centred at {np.round(mu, 4).tolist()}, {np.sqrt(dist2):.1f} standard deviations "
-                                        f"(of the cluster's own weighted cloud) away from the weighted mean {np.round(m, 4).tolist()} of the "
-                                        f"{int(sel.sum())} training particles of cluster {r}: it was not fitted from the particles of that cluster",
-                                        sig={"kind": "mode-of-other-cluster"})
+                    sdc = np.sqrt(ww @ (ut[sel] - m) ** 2)
+                    z = np.abs(mu - m) / np.maximum(sdc, 1e-300)
+                    j = int(np.argmax(z))
+                    if np.isfinite(z[j]) and z[j] > 3.0 and abs(mu[j] - m[j]) > 1e-9:
+                        raise Violation(f"{where}: proposal mode {r} is centred at {np.round(mu, 4).tolist()}: along coordinate {j} that is "
+                                        f"{z[j]:.1f} standard deviations (of the cluster's own weighted cloud) away from the weighted mean "
+                                        f"{np.round(m, 4).tolist()} of the {int(sel.sum())} training particles of cluster {r}: it was not fitted "
+                                        f"from the particles of that cluster", sig={"kind": "mode-of-other-cluster"})
         n_checked += 1
     return n_checked
 
